@@ -218,3 +218,92 @@ def lemma_brackets_automaton(reg, repo):
 lemma_brackets_automaton.target = "trees.treeinput.brackets"
 LEMMAS = dict(globals().get("LEMMAS", {}))
 LEMMAS["brackets_automaton"] = lemma_brackets_automaton
+
+
+# ----------------------------------------------------------------------------------------------------------------------
+# treeinput.export: closing a sentence (from the assignment of the sentence id to the end of the #EOS branch) as a block
+# contract: the id is the running count with `continuous`, else the number on the #BOS line; exactly that tree is
+# yielded; the per-sentence state is reset and the sentence count advances by one.  The `replace_parens` traversal in
+# between is outside the subset; a syntactic obligation checks that it assigns none of the reader's variables.
+# ----------------------------------------------------------------------------------------------------------------------
+def lemma_export_close_sentence(reg, repo):
+    import ast
+    from pyvc.core import Exec, State
+    from pyvc.heap import Heap
+    from pyvc.sym import VRef, REF, fresh, Unsupported
+    qual = "trees.treeinput.export"
+    info = repo.fns.get(qual)
+    if info is None:
+        raise Unsupported("function %s no longer exists" % qual)
+    body = None
+    for node in ast.walk(info.node):
+        b = getattr(node, "body", None)
+        if isinstance(b, list) and any(isinstance(s, ast.Expr) and isinstance(s.value, ast.Yield) for s in b):
+            body = b
+    if body is None:
+        raise Unsupported("the yield of treeinput.export was not found (the contract no longer binds)")
+    srcs = [ast.unparse(s) for s in body]
+    start = [i for i, t in enumerate(srcs) if t.startswith("tree.data['sid'] =")]
+    if not start:
+        raise Unsupported("the sentence-id assignment of treeinput.export was not found")
+    tail = body[start[0]:]
+    excluded = [s for s in tail if isinstance(s, ast.If) and "'replace_parens' in params" in ast.unparse(s.test)]
+    block = [s for s in tail if s not in excluded]
+    c = Contract(target=qual, prop="C01", args={}, params={"continuous": BOOL, "replace_parens": BOOL}, loops={})
+    ex = Exec(repo, reg, info, c, prefix="C01.export_close")
+    H = Heap.fresh("E")
+    st = State(heap=H)
+    for t in H.typing():
+        st.assume(t)
+    assume = []
+    tree = VRef(z3.Int(fresh_name("e_tree")))
+    env = dict(tree=tree, tree_cnt=fresh(INT, "e_tree_cnt"), last_id=fresh(INT, "e_last_id"),
+               term_cnt=fresh(INT, "e_term_cnt"), in_sentence=VBool(z3.BoolVal(True)),
+               sentence=fresh(TList(STR), "e_sentence", assume=assume))
+    st.env.update(env)
+    st.env["params"] = ex._fresh_params(st, "ep")
+    st.yielded = fresh(TList(REF), "e_yielded", assume=assume)
+    for t in assume:
+        st.assume(t)
+    st.assume(tree.t != 0)
+    ex.entry_heap = H.copy()
+    ex.obligations = []
+    n0 = st.yielded.n
+    outs = ex._with_raises(st, ex.exec_block(block, st))
+    vcs = []
+    has = st.env["params"].fields["has"]
+    for oi, o in enumerate(outs):
+        if o.kind != "normal":
+            raise Unsupported("closing a sentence leaves the block by %s" % o.kind)
+        e = o.st.env
+        sid = z3.Select(o.st.heap.f["val_sid"], tree.t)
+        goals = {
+            "sentence_id_counted_or_taken_from_the_file": z3.And(
+                z3.Select(o.st.heap.f["has_sid"], tree.t),
+                sid == z3.If(has["continuous"], toint(env["tree_cnt"]), toint(env["last_id"]))),
+            "exactly_this_tree_is_yielded": z3.And(o.st.yielded.n == n0 + 1, o.st.yielded.get(n0).t == tree.t),
+            "per_sentence_state_reset_and_count_advanced": z3.And(
+                z3.Not(tobool(e["in_sentence"])), ex.iter_list(e["sentence"], o.st, None).n == 0,
+                toint(e["term_cnt"]) == 1, toint(e["tree_cnt"]) == toint(env["tree_cnt"]) + 1,
+                toint(e["last_id"]) == toint(env["last_id"])),
+        }
+        for gname, g in goals.items():
+            vcs.append(("path%d.%s" % (oi, gname), list(o.st.pc), g))
+    for ob in ex.obligations:
+        vcs.append(("step.%s" % ob.name.split(".", 2)[-1], list(ob.pc), ob.goal))
+    reader_vars = {"tree", "tree_cnt", "last_id", "term_cnt", "in_sentence", "sentence"}
+    for node in excluded:
+        written = set()
+        for sub in node.body:
+            for n in ast.walk(sub):
+                if isinstance(n, ast.Name) and isinstance(n.ctx, ast.Store):
+                    written.add(n.id)
+                if isinstance(n, (ast.Yield, ast.Return, ast.Break, ast.Continue)):
+                    written.add("<control>")
+        bad = sorted(written & (reader_vars | {"<control>"}))
+        vcs.append(("excluded_branch_L%d_leaves_the_reader_state_alone" % ex.line(node), [], z3.BoolVal(not bad)))
+    return vcs
+
+
+lemma_export_close_sentence.target = "trees.treeinput.export"
+LEMMAS["export_close_sentence"] = lemma_export_close_sentence
